@@ -212,6 +212,14 @@ class C17(Check):
         for spelling in ("direct", "symlink"):
             for where in ("entry", "manifest_path", "manifest_list", "marker", "listing"):
                 yield {"part": "tamper", "where": where, "root": spelling}
+        # a directory that was real when a long-lived handle first used it is later replaced by a symlink
+        for spelling in ("direct", "symlink"):
+            for sub in ("data", "x", "metadata/manifests", "metadata"):
+                yield {"part": "swap", "sub": sub, "root": spelling}
+        # S3 backend: every request must stay under the table's key prefix
+        for prefix in ("wh/t", "t", "deep/er/wh/t"):
+            for c in range(4):
+                yield {"part": "s3keys", "prefix": prefix, "depth": 3 if tier == "quick" else 4, "chunk": c, "chunks": 4}
 
     def run_case(self, case: Any, res: CaseResult, tier: str) -> None:
         install_audit()
@@ -284,6 +292,129 @@ class C17(Check):
             if len(res.samples) < 1:
                 res.sample({"root": case["root"], "strings_in_chunk": len(mine), "entry_points": len(eps),
                             "example": {"path": "link_out/s1.txt", "classified": "escaping", "expected": "raise"}})
+
+    def _swap(self, case: Any, res: CaseResult) -> None:
+        import datashard as ds
+
+        with Scratch("c17w") as d:
+            arena = Arena(str(d / "arena"))
+            arena.build()
+            root = arena.table if case["root"] == "direct" else arena.tlink
+            sub = case["sub"]
+            t = ds.load_table(root)
+            subdir = os.path.join(arena.table, sub)
+            os.makedirs(subdir, exist_ok=True)
+            # a file that exists inside before the swap and, under the same name, outside after it
+            inside_file = os.path.join(subdir, "victim.bin")
+            open(inside_file, "wb").write(b"inside-content")
+            outdir = os.path.join(arena.outside, "swapped")
+            os.makedirs(outdir, exist_ok=True)
+            open(os.path.join(outdir, "victim.bin"), "wb").write(b"OUTSIDE-SECRET")
+            rel = f"{sub}/victim.bin"
+            eps = entry_points(t)
+            # warm: the long-lived handle uses the path while the directory is real
+            for name, fn in eps:
+                if name in ("storage.delete_file", "tx.append_files", "tx.delete_files", "dfm.write_data_file",
+                            "storage.write_file", "storage.write_json", "storage.create_lock", "storage.makedirs"):
+                    continue
+                try:
+                    fn(rel)
+                except BaseException:
+                    pass
+            try:
+                t.scan()
+            except BaseException:
+                pass
+            # swap: the real directory moves away, a symlink to the outside takes its name
+            os.rename(subdir, subdir + ".moved")
+            os.symlink(outdir, subdir)
+            for name, fn in eps:
+                out, bad, any_ev = self._call(arena, fn, rel)
+                res.count("calls")
+                res.evals += 1
+                if any_ev:
+                    res.count("audit_events_seen")
+                res.key(["swap", sub, name])
+                wit = {"entry_point": name, "path": rel, "root": case["root"], "swapped_dir": sub, "outcome": out,
+                       "outside_effects": bad[:5]}
+                if bad:
+                    res.violation(f"outside-access-after-symlink-swap:{name}",
+                                  f"{name}({rel!r}) through a long-lived handle touched {bad[0]} after '{sub}' became a symlink", wit)
+                    return
+                if out == "returned" and name not in ("storage.create_lock", "tx.delete_files", "storage.exists",
+                                                      "fm.validate_file_exists"):
+                    res.violation(f"escaping-path-accepted-after-symlink-swap:{name}",
+                                  f"{name}({rel!r}) returned although '{sub}' now points outside the table", wit)
+                    return
+                res.count("escaping_rejected")
+            if len(res.samples) < 1:
+                res.sample({"part": "swap", "directory_replaced_by_symlink": sub, "path": rel, "entry_points": len(eps)})
+
+    def _s3keys(self, case: Any, res: CaseResult) -> None:
+        from datashard.storage_backend import S3StorageBackend
+        from vf.fakes3 import FakeS3Client, FakeS3Store
+
+        store = FakeS3Store()
+        prefix = case["prefix"]
+        parent = prefix.rsplit("/", 1)[0] + "/" if "/" in prefix else ""
+        store.put_object(Bucket="bkt", Key=f"{prefix}/data/x", Body=b"mine")
+        store.put_object(Bucket="bkt", Key=f"{prefix}2/data/x", Body=b"sibling-prefix")
+        store.put_object(Bucket="bkt", Key=f"{parent}t2/data/secret", Body=b"neighbour")
+        store.put_object(Bucket="bkt", Key="root-level", Body=b"root")
+        s3 = S3StorageBackend.__new__(S3StorageBackend)
+        s3.bucket, s3.prefix, s3.endpoint_url, s3.access_key, s3.secret_key = "bkt", prefix, None, None, None
+        s3.region, s3.use_conditional_writes = "us-east-1", True
+        s3.s3 = FakeS3Client(store)
+        outside: List[str] = []
+
+        def watch(req: Any) -> None:
+            k = req.key
+            if not (k == prefix or k.startswith(prefix + "/")):
+                outside.append(f"{req.op} {k}")
+            # S3 keys are literal, but a '..' segment that a client library or proxy normalises would climb out
+        store.before.append(watch)
+        others = {k: o.body for k, o in store.objects.items() if not k[1].startswith(prefix + "/")}
+        comps = ["..", ".", "", "data", "x", "t2", prefix.split("/")[-1] + "2"]
+        import itertools
+        strings = []
+        for n in range(1, case["depth"] + 1):
+            for c in itertools.product(comps, repeat=n):
+                strings.append("/".join(c))
+                strings.append("/" + "/".join(c))
+        strings = sorted(set(strings))
+        ops = [("read_file", s3.read_file), ("exists", s3.exists), ("list_files", s3.list_files), ("get_size", s3.get_size),
+               ("write_file", lambda p: s3.write_file(p, b"w")), ("delete_file", s3.delete_file),
+               ("open_seekable", lambda p: s3.open_seekable(p).read()), ("open_file", lambda p: s3.open_file(p).read()),
+               ("get_modified_time", s3.get_modified_time), ("create_lock", lambda p: s3.create_lock(p))]
+        import datashard.s3_consistency as s3c
+        real_sleep = s3c.time.sleep
+        s3c.time.sleep = lambda x: None
+        try:
+            for i, p in enumerate(strings):
+                if i % case["chunks"] != case["chunk"]:
+                    continue
+                for name, fn in ops:
+                    del outside[:]
+                    try:
+                        fn(p)
+                        out = "returned"
+                    except BaseException as e:  # noqa
+                        out = "raised:" + type(e).__name__
+                    res.count("calls")
+                    res.evals += 1
+                    now_others = {k: o.body for k, o in store.objects.items() if not k[1].startswith(prefix + "/")}
+                    if outside or now_others != others:
+                        res.violation(f"s3-request-outside-table-prefix:{name}",
+                                      f"s3.{name}({p!r}) with table prefix {prefix!r} issued {outside[:2]} / changed a foreign object",
+                                      {"prefix": prefix, "path": p, "op": name, "requests": outside[:4]})
+                        return
+                    if ".." in p.split("/"):
+                        res.key(["s3", name, p])
+                        res.count("escaping_rejected" if out != "returned" else "s3_dotdot_kept_literal_under_prefix")
+        finally:
+            s3c.time.sleep = real_sleep
+        if len(res.samples) < 1:
+            res.sample({"part": "s3keys", "table_prefix": prefix, "strings": len(strings) // case["chunks"], "ops": len(ops)})
 
     @staticmethod
     def _table_relative_ok(name: str) -> bool:
